@@ -1923,11 +1923,12 @@ class Scheduler:
             check_valid = job.get_option(
                 "check_valid", CacheCheckValid.FULL, as_type=CacheCheckValid
             )
-            if check_valid == CacheCheckValid.FULL:
+            if check_valid == CacheCheckValid.FULL and job.child_jobs:
                 job.calc_subtree_tasks()
             else:
-                # If we did ultimate reduction caching, then we need to query the
-                # backend to determine subtree tasks.
+                # If we did ultimate reduction caching (also the case for a result reused
+                # within the execution, which creates no child jobs), then we need to query
+                # the backend to determine subtree tasks.
                 job.subtree_tasks = self._get_subtree_tasks(job)
         else:
             # Ignore failed child jobs, which have no call_hash.
